@@ -6,7 +6,8 @@
    (Seq/StreamsSpec.v).  Theorems quantified over every state (or every reachable state) cover
    every position reached by dropping a prefix.  `*_count` is the mathematical number of
    remaining elements; `*_len` is the transcription of the type's Stream::len (Ok None =
-   "infinite", Panic = usize overflow in a debug build). *)
+   "infinite", which the closed forms also answer when the count does not fit usize: the one
+   known finding len-count-ge-2^64; `to_usize_z z` = Some z if z < 2^64, else None). *)
 From Coq Require Import ZArith List Bool Sorting.Sorted.
 From NV Require Import Common.Outcome Common.MachineInt Seq.Index Seq.IndexSpec Seq.Index_proofs
   Seq.Streams Seq.StreamsSpec Seq.Streams_proofs Seq.Streams_counter_proofs Seq.Streams_comb_proofs
@@ -46,7 +47,7 @@ Theorem C11_range_len_exhausted : forall r, range_finite r -> fst (range_step r)
 Proof. exact range_count_none. Qed.
 Print Assumptions C11_range_len_exhausted.
 
-(* known finding range-len-ge-2^64 (F15): stated for counts below 2^64, refuted at 2^64 *)
+(* known finding len-count-ge-2^64 (F15): stated for counts below 2^64, refuted at 2^64 *)
 Theorem C11_range_len_counts_iteration : forall r l,
   yields range_step r l -> Z.of_nat (length l) < 2 ^ 64 -> range_len r = Some (Z.of_nat (length l)).
 Proof. exact range_len_counts_iteration. Qed.
@@ -93,17 +94,20 @@ Theorem C11_subseq_len_exhausted : forall s, fst (sub_step s) = None -> sub_coun
 Proof. exact sub_count_none. Qed.
 Print Assumptions C11_subseq_len_exhausted.
 
-(* known finding len-usize-overflow: stated for fewer than 64 flags, refuted with 64 *)
+(* for EVERY state: len is the number of elements iteration yields when that fits usize, and
+   None ("infinite") when it does not -- known finding len-count-ge-2^64; never a panic *)
 Theorem C11_subseq_len_counts_iteration : forall s l,
-  (forall v, s = Some v -> (length v < 64)%nat) ->
-  yields sub_step s l -> sub_len s = Ok (Some (Z.of_nat (length l))).
+  yields sub_step s l -> sub_len s = Ok (to_usize_z (Z.of_nat (length l))).
 Proof. exact sub_len_counts_iteration. Qed.
 Print Assumptions C11_subseq_len_counts_iteration.
 
-Theorem C11_subseq_len_overflow_refuted :
-  exists v, sub_inc (repeat false 64) = Some v /\ sub_count (Some v) = 2 ^ 64 - 1 /\ sub_len (Some v) = Panic.
-Proof. exact sub_len_overflow_refuted. Qed.
-Print Assumptions C11_subseq_len_overflow_refuted.
+(* the witness: 64 flags, 2^64 subsequences, len = infinity; one element later 2^64-1 is exact *)
+Theorem C11_subseq_len_huge_refuted :
+  (exists l, yields sub_step (sub_init 64) l /\ Z.of_nat (length l) = 2 ^ 64) /\
+  sub_len (sub_init 64) = Ok None /\
+  sub_len (snd (sub_step (sub_init 64))) = Ok (Some (2 ^ 64 - 1)).
+Proof. exact sub_len_huge_refuted. Qed.
+Print Assumptions C11_subseq_len_huge_refuted.
 
 (* all 2^n masks, each once, in binary counting order *)
 Theorem C11_subseq_enumerates_exactly : forall n l,
@@ -122,16 +126,17 @@ Theorem C11_cart_len_exhausted : forall m s, cart_inv m s -> fst (cart_step m s)
 Proof. exact cart_count_none. Qed.
 Print Assumptions C11_cart_len_exhausted.
 
-Theorem C11_cart_len_counts_iteration : forall m s l, cart_inv m s ->
-  (forall v, s = Some v -> Z.of_nat m ^ Z.of_nat (length v) < 2 ^ 64) ->
-  yields (cart_step m) s l -> cart_len m s = Ok (Some (Z.of_nat (length l))).
+(* base length m fits usize (a Vec length); then as for subsequences *)
+Theorem C11_cart_len_counts_iteration : forall m s l, Z.of_nat m < 2 ^ 64 -> cart_inv m s ->
+  yields (cart_step m) s l -> cart_len m s = Ok (to_usize_z (Z.of_nat (length l))).
 Proof. exact cart_len_counts_iteration. Qed.
 Print Assumptions C11_cart_len_counts_iteration.
 
-Theorem C11_cart_len_overflow_refuted :
-  cart_inv 2 (cart_init 2 64) /\ cart_count 2 (cart_init 2 64) = 2 ^ 64 /\ cart_len 2 (cart_init 2 64) = Panic.
-Proof. exact cart_len_overflow_refuted. Qed.
-Print Assumptions C11_cart_len_overflow_refuted.
+Theorem C11_cart_len_huge_refuted :
+  (exists l, yields (cart_step 2) (cart_init 2 64) l /\ Z.of_nat (length l) = 2 ^ 64) /\
+  cart_len 2 (cart_init 2 64) = Ok None.
+Proof. exact cart_len_huge_refuted. Qed.
+Print Assumptions C11_cart_len_huge_refuted.
 
 (* all m^k index tuples, each once, in lexicographic order (also for m = 0 and for k = 0) *)
 Theorem C11_cart_enumerates_exactly : forall m k l,
@@ -271,7 +276,7 @@ Example C11_nonvacuous :
   range_finite (til 10 0 (-3)) /\ ~ range_finite (til 1 5 0) /\
   yields wvec_step (stream_of_list [1; 2; 3]) [1; 2; 3] /\
   unfold perm_step 10 (perm_init 3) = [[0; 1; 2]; [0; 2; 1]; [1; 0; 2]; [1; 2; 0]; [2; 0; 1]; [2; 1; 0]]%nat /\
-  perm_len (snd (perm_step (perm_init 3))) = Ok (Some 5) /\
+  perm_len (snd (perm_step (perm_init 3))) = Ok (Some 5) /\ perm_len (perm_init 21) = Ok None /\
   unfold (comb_step 4) 10 (comb_init 2) = [[0; 1]; [0; 2]; [0; 3]; [1; 2]; [1; 3]; [2; 3]]%nat /\
   sub_len (snd (sub_step (sub_init 3))) = Ok (Some 7) /\
   cart_len 3 (snd (cart_step 3 (cart_init 3 2))) = Ok (Some 8) /\ cart_inv 3 (cart_init 3 2) /\
